@@ -14,5 +14,6 @@ CONSTANTS
   CancelKeepsSucceeded = TRUE
   KF_LiveRunnerFailed = TRUE
   UnitTraceFile = "unit_trace.ndjson"
+  CheckSteps = TRUE
 POSTCONDITION UnitTraceAccepted
 CHECK_DEADLOCK FALSE
